@@ -609,3 +609,74 @@ func replayTamper(c replayT) {
 	n := tamperFile(c.Config, repHistory{"replay", c.History}, c.F, &[2]int{c.Offset, c.Mask})
 	fmt.Printf("  %s: byte %d of %s xor %#02x: %d case(s) re-executed\n", c.Config.Name(), c.Offset, c.FLab, c.Mask, n)
 }
+
+// ---------------------------------------------------------------- two-byte changes of one key ring
+
+// partTamperPairs: "any byte change" is not only a single byte. For one v2 key ring (the smallest:
+// one symmetric key) EVERY pair of byte positions is changed together (same mask 0x01), which
+// covers every coordinated edit of two places of the signed container (payload + signature). The
+// oracle is the single-byte one: a modified ring must not load.
+func partTamperPairs() {
+	// on the real directory back end (the in-memory one hands its buffers out by reference)
+	cfg := kslab.Config{Format: "v2", Storage: "dir"}
+	h := repHistory{"one-key-each", genAll(1)}
+	probe := buildLab(cfg, h.ops)
+	files := listFiles(probe)
+	idx := -1
+	for i, f := range files {
+		if f.Slot.Kind == kslab.StorageSym && f.Slot.Client == kslab.Alpha {
+			idx = i
+		}
+	}
+	if idx < 0 {
+		ev.Fatalf("tamper pairs: ring of storage-sym@alpha not found")
+	}
+	size := len(readStored(probe, files[idx].Path))
+	probe.Close()
+	results := make([]int, size)
+	done := par.Do(size, run.Expired, func(i int) { results[i] = tamperPairsFrom(cfg, h, idx, i, -1) })
+	total := 0
+	for _, n := range results {
+		total += n
+	}
+	if done < size {
+		run.Capped(fmt.Sprintf("tamper pairs: first offsets %d of %d done", done, size))
+	}
+	run.Set("tamper_pairs", map[string]int{"ring_bytes": size, "cases": total})
+}
+
+// tamperPairsFrom changes byte i together with every byte j > i (only j when j >= 0: replay).
+func tamperPairsFrom(cfg kslab.Config, h repHistory, idx, i, onlyJ int) (cases int) {
+	lab := buildLab(cfg, h.ops)
+	defer lab.Close()
+	f := listFiles(lab)[idx]
+	orig := readStored(lab, f.Path)
+	defer writeStored(lab, f.Path, orig)
+	for j := i + 1; j < len(orig); j++ {
+		if onlyJ >= 0 && j != onlyJ {
+			continue
+		}
+		if run.Expired() {
+			return cases
+		}
+		mod := append([]byte(nil), orig...)
+		mod[i] ^= 0x01
+		mod[j] ^= 0x01
+		writeStored(lab, f.Path, mod)
+		if err := lab.S.Reopen(); err != nil {
+			ev.Fatalf("tamper pairs: reopen: %v", err)
+		}
+		payload := replayT{Part: "tamper-pair", Config: cfg, History: h.ops, F: idx, FLab: f.Label, Offset: i, Offset2: j, Pair: true, Mask: 0x01, Size: len(orig)}
+		loads := judgeTamper(lab, f, nil, i, 0x01, payload)
+		run.States(1)
+		run.Traces(1)
+		run.Transitions(1 + loads)
+		cases++
+	}
+	return cases
+}
+
+func replayTamperPair(c replayT) {
+	n := tamperPairsFrom(c.Config, repHistory{"replay", c.History}, c.F, c.Offset, c.Offset2)
+	fmt.Printf("  %s: bytes %d and %d of %s xor 0x01: %d case(s) re-executed\n", c.Config.Name(), c.Offset, c.Offset2, c.FLab, n)
+}
